@@ -1,6 +1,7 @@
 package main
 
 import (
+	"go/token"
 	"go/types"
 	"sort"
 
@@ -29,6 +30,31 @@ type PktClosure struct {
 	// Pkt overrides the packet parameters (used when a helper function is analysed as if it were the closure).
 	Pkt   []*ssa.Parameter
 	depth int
+	// Method form: the per-packet function is a method value (r.read) of a small object built in the Bind method; the
+	// downstream is the field of that object that was initialised from the Bind parameter.
+	NextRecv  *ssa.Parameter // the method's receiver
+	NextField *types.Var     // field holding the downstream
+	NextSrc   *ssa.Parameter // the Bind parameter stored in NextField at construction
+	Wrapper   *ssa.Function  // the synthetic bound-method wrapper that is converted
+}
+
+// hasNext: the closure has a downstream (captured parameter or field of its object).
+func (c *PktClosure) hasNext() bool { return c.Next != nil || c.NextField != nil }
+
+// nextSource is the parameter of the enclosing Bind method that the closure wraps.
+func (c *PktClosure) nextSource() *ssa.Parameter {
+	if c.Next != nil {
+		return c.Next
+	}
+	return c.NextSrc
+}
+
+// ownerFn is the function that creates the closure (the Bind method or a helper of it).
+func (c *PktClosure) ownerFn() *ssa.Function {
+	if c.Conv != nil && c.Wrapper != nil {
+		return c.Conv.Parent()
+	}
+	return c.Fn
 }
 
 var funcTypeKinds = map[string]ClosureKind{
@@ -68,6 +94,13 @@ func (p *Prog) PktClosures() (out []*PktClosure, odd []*ssa.ChangeType) {
 				fn = mc.Fn.(*ssa.Function)
 			} else if sf, ok2 := ct.X.(*ssa.Function); ok2 {
 				fn = sf
+			}
+			if fn != nil && fn.Synthetic != "" && ok && len(mc.Bindings) == 1 {
+				// a bound method value r.m: analyse the method, the downstream is a field of r
+				if c := p.methodValueClosure(mc, fn, k, ct); c != nil {
+					out = append(out, c)
+					return
+				}
 			}
 			if fn == nil || fn.Blocks == nil || fn.Synthetic != "" {
 				odd = append(odd, ct)
@@ -134,10 +167,69 @@ func (p *Prog) paramCell(par *ssa.Parameter) *ssa.Alloc {
 // If the cell is reassigned anywhere (writer = wrap(writer)), the answer is false and callers treat calls through it
 // as not-identity.
 func (p *Prog) isNextValue(c *PktClosure, v ssa.Value) bool {
+	if c.NextField != nil {
+		u, ok := p.origin(v).(*ssa.UnOp)
+		if !ok || u.Op != token.MUL {
+			return false
+		}
+		fa, ok := u.X.(*ssa.FieldAddr)
+		return ok && fieldOfAddr(fa) == c.NextField && p.origin(fa.X) == ssa.Value(c.NextRecv)
+	}
 	if c.Next == nil {
 		return false
 	}
 	return p.origin(v) == ssa.Value(c.Next)
+}
+
+// methodValueClosure models `XxxFunc(obj.method)`: wrapper is the synthetic bound-method wrapper, mc binds obj.
+func (p *Prog) methodValueClosure(mc *ssa.MakeClosure, wrapper *ssa.Function, k ClosureKind, ct *ssa.ChangeType) *PktClosure {
+	var method *ssa.Function
+	instrsOf(wrapper, func(in ssa.Instruction) {
+		if c, ok := in.(ssa.CallInstruction); ok {
+			if sc := c.Common().StaticCallee(); sc != nil {
+				method = sc
+			}
+		}
+	})
+	if method == nil || method.Blocks == nil || !p.InUniverse(method) || method.Signature.Recv() == nil || len(method.Params) == 0 {
+		return nil
+	}
+	c := &PktClosure{Fn: method, Kind: k, Conv: ct, Wrapper: wrapper, NextRecv: method.Params[0]}
+	switch k {
+	case RTPWriter:
+		if len(method.Params) < 3 {
+			return nil
+		}
+		c.Pkt = method.Params[1:3]
+	default:
+		if len(method.Params) < 2 {
+			return nil
+		}
+		c.Pkt = method.Params[1:2]
+	}
+	// the receiver object is built in the function that converts: find the field initialised with the downstream
+	iface := p.rootNamed(kindIface[k])
+	al, ok := p.origin(mc.Bindings[0]).(*ssa.Alloc)
+	if !ok {
+		return c // no downstream found: the rules report it
+	}
+	for _, st := range p.storesInto(al) {
+		fa, ok := st.Addr.(*ssa.FieldAddr)
+		if !ok || !types.Identical(st.Val.Type(), iface) {
+			continue
+		}
+		par, ok := p.origin(st.Val).(*ssa.Parameter)
+		if !ok {
+			continue
+		}
+		fv := fieldOfAddr(fa)
+		// the field is written once, at construction
+		if len(p.storesToField(fv)) != 1 {
+			continue
+		}
+		c.NextField, c.NextSrc = fv, par
+	}
+	return c
 }
 
 // InterceptorTypes returns every named type of the universe whose pointer method set implements interceptor.Interceptor.
